@@ -108,6 +108,8 @@ func specRecLen(n uint32) uint32 { return (16 + n + 31) / 32 * 32 }
 //	         increase is asserted non-negative and zero below the limits
 
 //@ ghost tried int
+//@ ghost touched bool
+//@ ghost refreshed bool
 //@ ghost ledger wide
 //@ ghost rd int
 //@ ghost lk int
@@ -254,6 +256,7 @@ func specLkAfter(kind, lk int) int {
 //@   modifies $ledger, $lost
 
 //@ contract (*Counter).Add
+//@   at call releaseLock#1: ghost $touched = false
 //@   requires n >= 0
 //@   requires c.file != nil
 //@   requires $rd == 0 && $lk == 0
@@ -267,16 +270,17 @@ func specLkAfter(kind, lk int) int {
 //@   at call update#3: after ghost $lost = ite(result, $lost+wide(old(state).extra())+wide(n)-wide(state.extra()), $lost)
 //@   at call update#4: after ghost $lost = ite(result, $lost+wide(old(state).extra())+wide(n)-wide(state.extra()), $lost)
 //@   at call update#5: after ghost $lost = ite(result, $lost+wide(old(state).extra())+wide(n)-wide(state.extra()), $lost)
-//@   modifies c.ptr, $ledger, $lost, $rd, $lk
+//@   modifies c.ptr, $ledger, $lost, $rd, $lk, $refreshed, $touched
 
 //@ contract (*Counter).Inc
 //@   requires c.file != nil
 //@   requires $rd == 0 && $lk == 0
 //@   ensures $ledger+$lost == old($ledger)+old($lost)+1
 //@   ensures $rd == 0 && $lk == 0
-//@   modifies c.ptr, $ledger, $lost, $rd, $lk
+//@   modifies c.ptr, $ledger, $lost, $rd, $lk, $refreshed, $touched
 
 //@ contract (*Counter).releaseReader
+//@   at call releaseLock#1: ghost $touched = false
 //@   requires c.file != nil
 //@   requires $rd == 1 && $lk == 0
 //@   requires !state.locked() && state.readers() >= 1
@@ -284,7 +288,7 @@ func specLkAfter(kind, lk int) int {
 //@   ensures $rd == 0 && $lk == 0
 //@   loop 1: invariant $ledger == old($ledger) && $lost == old($lost) && $rd == 1 && $lk == 0
 //@   loop 1: invariant !state.locked() && state.readers() >= 1
-//@   modifies c.ptr, $ledger, $lost, $rd, $lk
+//@   modifies c.ptr, $ledger, $lost, $rd, $lk, $refreshed, $touched
 
 //@ contract (*Counter).releaseLock
 //@   requires c.file != nil
@@ -296,7 +300,16 @@ func specLkAfter(kind, lk int) int {
 //@   loop 1: invariant state.locked()
 //@   at call lookup#1: assert $lk == 1
 //@   at call add#1: assert $lk == 1
-//@   modifies c.ptr, $ledger, $lost, $lk
+// Quiescence: when releaseLock has set havePtr and reset c.ptr, it refreshes the
+// pointer before it unlocks, whatever the pending amount (otherwise, with a file
+// open, later Adds find havePtr set and a nil pointer, park their amounts in
+// extra, and nothing flushes them until the next remap).
+//@   requires !$touched
+//@   at call debugPrintf#1: ghost $touched = true
+//@   at call debugPrintf#1: ghost $refreshed = false
+//@   at call lookup#1: ghost $refreshed = true
+//@   at call update#3: assert $touched ==> $refreshed
+//@   modifies c.ptr, $ledger, $lost, $lk, $touched, $refreshed
 
 //@ contract (*Counter).invalidate
 //@   requires $rd == 0 && $lk == 0
@@ -305,12 +318,13 @@ func specLkAfter(kind, lk int) int {
 //@   modifies $ledger, $rd, $lk
 
 //@ contract (*Counter).refresh
+//@   at call releaseLock#1: ghost $touched = false
 //@   requires c.file != nil
 //@   requires $rd == 0 && $lk == 0
 //@   ensures $ledger+$lost == old($ledger)+old($lost)
 //@   ensures $rd == 0 && $lk == 0
 //@   loop 1: invariant $ledger == old($ledger) && $lost == old($lost) && $rd == 0 && $lk == 0
-//@   modifies c.ptr, $ledger, $lost, $rd, $lk
+//@   modifies c.ptr, $ledger, $lost, $rd, $lk, $refreshed, $touched
 
 // ---------------------------------------------------------------------------
 // C05 / C06 / C10: access to the mapped bytes.
@@ -513,23 +527,23 @@ func specMapped(m *mappedFile) bool {
 //@   at call Load#1: after assume result == nil || result.file != nil
 //@   at call Load#2: after assume result != nil && result.file != nil
 //@   at call Load#3: after assume result != nil && result.file != nil
-//@   modifies heap, $ledger, $lost
+//@   modifies heap, $ledger, $lost, $refreshed, $touched
 
 //@ contract (*file).newCounter1
 //@   modifies heap, $minsize, $fsops, $tried
 
 //@ contract (*file).rotate1
 //@   requires $rd == 0 && $lk == 0
-//@   modifies heap, $fsops, $minsize, $now, $weekend, $ledger, $lost
+//@   modifies heap, $fsops, $minsize, $now, $weekend, $ledger, $lost, $refreshed, $touched
 
 //@ contract (*file).rotate
 //@   requires $rd == 0 && $lk == 0
-//@   modifies heap, $fsops, $minsize, $now, $weekend, $ledger, $lost
+//@   modifies heap, $fsops, $minsize, $now, $weekend, $ledger, $lost, $refreshed, $touched
 
 //@ contract Open
 //@   requires $rd == 0 && $lk == 0
 //@   allows panic#1: documented API misuse: Open and OpenAndRotate must not both be used in one process
-//@   modifies heap, rotating, defaultFile, $fsops, $minsize, $now, $weekend, $ledger, $lost
+//@   modifies heap, rotating, defaultFile, $fsops, $minsize, $now, $weekend, $ledger, $lost, $refreshed, $touched
 
 // ---------------------------------------------------------------------------
 // C15 / C05: stack counters
@@ -569,7 +583,7 @@ func specMapped(m *mappedFile) bool {
 //@   requires forall i int :: 0 <= i && i < len(c.stacks) && c.stacks[i].counter != nil ==> c.stacks[i].counter.file != nil
 //@   loop 1: invariant -1 <= rangeindex && rangeindex < len(c.stacks)
 //@   loop 1: decreases len(c.stacks)-rangeindex
-//@   modifies heap, $ledger, $lost
+//@   modifies heap, $ledger, $lost, $refreshed, $touched
 
 // ---------------------------------------------------------------------------
 // C09: the week a counter file covers.
